@@ -47,7 +47,9 @@ Inject(h, result, class) ==
 
 ReplyDispatch ==
     /\ st = "replied"
-    /\ IF rep.h \notin AllHandlers(Pr)
+    /\ IF Legacy(Pr)      \* no dispatch by id: the single reply method gets every reply
+       THEN out' = [kind |-> "method", m |-> 1, extracted |-> ""]
+       ELSE IF rep.h \notin AllHandlers(Pr)
        THEN out' = [kind |-> "unknown_id", m |-> 0, extracted |-> ""]
        ELSE LET r == Route(Pr, rep.h, rep.result) IN
             IF r.kind = "method" /\ r.second = "data"
@@ -59,7 +61,7 @@ ReplyDispatch ==
 
 (* C07: the method that runs was declared for this handler name and this outcome (or for always) *)
 C07_DeclaredMethodRuns ==
-    (st = "dispatched" /\ out.kind = "method") =>
+    (st = "dispatched" /\ out.kind = "method" /\ ~Legacy(Pr)) =>
         /\ out.m \in MethodsFor(Pr, rep.h)
         /\ Pr.methods[out.m].on \in {IF rep.result = "ok" THEN "success" ELSE "error", "always"}
         /\ Pr.methods[out.m].on = "always" =>
@@ -70,7 +72,9 @@ C07_UncoveredOutcomeActsAsNoReply ==
               rep.result = "ok" /\ MethodsOn(Pr, rep.h, "success") = {} /\ MethodsOn(Pr, rep.h, "always") = {}
         /\ out.kind = "forward_error" =>
               rep.result = "err" /\ MethodsOn(Pr, rep.h, "error") = {} /\ MethodsOn(Pr, rep.h, "always") = {}
-C07_UnknownIdIsError == (st = "dispatched" /\ rep.h \notin AllHandlers(Pr)) => out.kind = "unknown_id"
+C07_UnknownIdIsError == (st = "dispatched" /\ rep.h \notin AllHandlers(Pr) /\ ~Legacy(Pr)) => out.kind = "unknown_id"
+(* C06: without the `replies` feature the reply entry point forwards every reply to the reply method *)
+C06_LegacyReplyAlwaysRuns == (st = "dispatched" /\ Legacy(Pr)) => (out.kind = "method" /\ out.m = 1)
 (* C08: a reply requested through the builder always finds a method: nothing is requested in vain *)
 C08_RequestedRepliesAreHandled ==
     (st = "dispatched" /\ sub.h # "") => out.kind \in {"method", "data_error"}
